@@ -408,7 +408,7 @@ fn short(i: &RawInstr) -> String { format!("t={} op={} m={} len={} d={} pop={} x
 /// not fit tells (time/opcode/size out of the on-disk range), otherwise the first differing field
 fn guess_field(sf: Fmt, instrs: &[RawInstr], r: &Result<Result<Vec<RawInstr>, String>, String>) -> String {
     for i in instrs {
-        if let Some(f) = unfit_field(sf, i) { return f.to_string(); }
+        if let Some(f) = unfit_field(sf, i) { if !f.ends_with("-unstored") { return f.to_string(); } }
     }
     // every requested value is inside the range of its on-disk field: whatever differs is not one of the
     // recorded narrowing findings
